@@ -52,6 +52,30 @@ fn run(status: u16, body_len: usize) -> String {
     r.unwrap_or_else(|_| "PANIC".to_string())
 }
 
+/// the shell reports an error instead of a response: what does the app receive?
+fn run_shell_error(kind: &str) -> String {
+    let sent = match kind {
+        "io" => HttpError::Io("socket closed".to_string()),
+        "url" => HttpError::Url("bad url".to_string()),
+        _ => HttpError::Timeout,
+    };
+    let expect = format!("{sent:?}");
+    let r = catch_unwind(AssertUnwindSafe(|| {
+        let mut cmd: crux_core::Command<Effect, Event> = Http::get("http://example.com/").build().then_send(Event::Got);
+        let Effect::Http(mut req) = cmd.effects().next().expect("one request");
+        req.resolve(HttpResult::Err(sent)).expect("resolves");
+        let evs: Vec<Event> = cmd.events().collect();
+        if evs.len() != 1 {
+            return format!("NOEVENT {}", evs.len());
+        }
+        match evs.into_iter().next().unwrap() {
+            Event::Got(Err(e)) => format!("APPERR {e:?}"),
+            Event::Got(Ok(r)) => format!("APPOK {}", u16::from(r.status())),
+        }
+    }));
+    format!("{} | SENT {expect}", r.unwrap_or_else(|_| "PANIC".to_string()))
+}
+
 fn main() {
     std::panic::set_hook(Box::new(|_| {}));
     let args: Vec<String> = std::env::args().collect();
@@ -64,6 +88,10 @@ fn main() {
     for line in std::io::stdin().lock().lines() {
         let line = line.unwrap();
         let mut it = line.split_whitespace();
+        if line.starts_with("E ") {
+            println!("{}", run_shell_error(line[2..].trim()));
+            continue;
+        }
         let Some(s) = it.next().and_then(|x| x.parse::<u16>().ok()) else {
             println!("BADINPUT");
             continue;
